@@ -142,8 +142,13 @@ func Execute(t *testing.T, p *Prop, tape *simrt.Tape, tier string, keepTrace boo
 		return res
 	}
 	s := run.S
-	for _, pn := range s.Panics {
-		run.Viol = append(run.Viol, Violation{Oracle: "panic", Sig: "panic:" + panicSite(pn), Msg: clip(pn), Step: run.steps})
+	if len(s.Panics) > 0 {
+		// a panic is the primary failure: report it first
+		var pv []Violation
+		for _, pn := range s.Panics {
+			pv = append(pv, Violation{Oracle: "panic", Sig: "panic:" + panicSite(pn), Msg: clip(pn), Step: run.steps})
+		}
+		run.Viol = append(pv, run.Viol...)
 	}
 	if res.Leak != "" {
 		run.Viol = append(run.Viol, Violation{Oracle: "goroutine-left-behind", Sig: "bubble-exit", Msg: clip(res.Leak), Step: run.steps})
@@ -177,7 +182,7 @@ func panicSite(dump string) string {
 	for _, l := range strings.Split(dump, "\n") {
 		l = strings.TrimSpace(l)
 		if strings.HasPrefix(l, "nhooyr.io/websocket") {
-			if i := strings.Index(l, "("); i > 0 {
+			if i := strings.LastIndex(l, "("); i > 0 {
 				return l[:i]
 			}
 			return l
